@@ -39,6 +39,17 @@ CHECKS["C17"] = dict(
   text="Path items cycle through all 15 non-empty method subsets of {GET,POST,PUT,OPTIONS} with seeded header parameters (case variants, path/operation level), per-operation security and overlapping templates, under three global requirements, cors flag on/off and CORSHandler set/nil; every path and near miss is sent OPTIONS; TLC checks methods and headers as duplicate-free sets, that declared OPTIONS operations are not shadowed and that a nil handler yields not-found.",
   note=PIPE_NOTE + " Header names canonicalised by http.CanonicalHeaderKey (trusted).")
 
+CHECKS["C04"] = dict(
+  level="model_checking", design="§4 C04, spec/Params.tla, spec/MC_Params.tla, spec/Trace_Params.tla",
+  technique="TLA+ model of the generated parameter parse order checked against set-valued admissible outcomes by TLC (MC_Params); the TLC-enumerated declaration matrix generated, compiled and requested with every lexeme-class supply; Parse() results judged by TLC (Trace_Params)",
+  text="Design check: every pair of declarations (location x type x array x required) x every supply of <= 2 lexeme classes - the generated order (query, header; required -> cardinality -> lexical parse; first error wins) always yields an outcome the Prop layer admits. Conformance: the 48 base declarations x {inline, schema $ref, component parameter} x {operation, path-item, overridden} levels (plus two-parameter operations) are pre-flighted, packed and requested with absent / every class / every pair of classes (thorough: triples); TLC validates ok/error, the named parameter, typed tokens and unset optionals.",
+  note="Lexeme classes are defined by strconv / time.Parse on uncontroversial representatives (DESIGN §11, A.5). Header arrays, nullable and non-primitive parameters are outside the matrix. Struct fields are bound to parameters by normalised name. TLC and the reflective driver are trusted.")
+CHECKS["C05"] = dict(
+  level="model_checking", design="§4 C05, spec/MC_PathParams.tla, spec/Params.tla, spec/Trace_Params.tla",
+  technique="TLA+ model of the alternating constant-prefix / variable path extractors checked against 'segment at the template position' by TLC (MC_PathParams); typed templates from TLC-enumerated sets served through the real router under all base-path forms; Parse() results judged by TLC (Trace_Params)",
+  text="Design check: every template of depth <= 3 with a variable x every type assignment x base-path length x every dispatched request - the extractors recover exactly the segment at each variable position and fail iff one is empty or outside its type. Conformance: TLC-enumerated template sets with seeded variable types (incl. $ref) under 9 base-path forms; each variable position is filled with every lexeme of its type, requests go through API.ServeHTTP, and for the operation that ran TLC validates the typed values / the named failing path parameter.",
+  note="Only dispatched requests are judged (routing itself is C03). The expected segment is computed from the operation that ran and the request path beneath the normalised base. Lexical spaces are defined by strconv / time.Parse. TLC and the reflective driver are trusted.")
+
 NOT_YET = {}
 
 def main():
